@@ -1,14 +1,16 @@
 #!/bin/bash
 # tools/eval_mutant.sh <mutant dir containing patch.diff, demo.py> <property id> [tier]
-# 1. demo passes on clean /repo   2. apply patch to /repo   3. demo fails   4. run ./check   5. revert
+# Applies the patch in a scratch worktree of /repo (HEAD), checks the demo on both trees and runs ./check against the scratch tree
+# (VERIF_REPO=<worktree>; evidence of such runs goes to out/evidence_scratch, never to evidence/).
 set -u
 M="$1"; P="$2"; TIER="${3:-quick}"
-cd /repo || exit 2
-if ! git diff --quiet; then echo "repo dirty"; exit 2; fi
-PYTHONPATH=/repo /venv/bin/python "$M/demo.py" >/tmp/demo_clean.log 2>&1; c=$?
-git apply "$M/patch.diff" || { echo "patch does not apply"; exit 2; }
-PYTHONPATH=/repo /venv/bin/python "$M/demo.py" >/tmp/demo_mut.log 2>&1; m=$?
-cd /verif && ./check "$P" --tier "$TIER" > /tmp/check_mut.log 2>&1; k=$?
-git -C /repo checkout -- .
+WT=/tmp/mut/eval_$$
+git -C /repo worktree add -q "$WT" HEAD || exit 2
+( cd "$WT" && PYTHONPATH="$WT" /venv/bin/python "$M/demo.py" >/tmp/demo_clean_$$.log 2>&1 ); c=$?
+( cd "$WT" && git apply "$M/patch.diff" ) || { echo "patch does not apply"; git -C /repo worktree remove --force "$WT"; exit 2; }
+( cd "$WT" && PYTHONPATH="$WT" /venv/bin/python "$M/demo.py" >/tmp/demo_mut_$$.log 2>&1 ); m=$?
+( cd /verif && VERIF_REPO="$WT" ./check "$P" --tier "$TIER" > /tmp/check_mut_$$.log 2>&1 ); k=$?
+git -C /repo worktree remove --force "$WT"
 echo "demo_clean_exit=$c demo_mutant_exit=$m check_exit=$k"
-grep -m3 "sub-check\|INCONCL" /tmp/check_mut.log
+grep -m4 "sub-check\|INCONCL" /tmp/check_mut_$$.log
+rm -f /tmp/demo_clean_$$.log /tmp/demo_mut_$$.log /tmp/check_mut_$$.log
